@@ -1554,6 +1554,7 @@ class DocutilsRenderer(RendererProtocol):
         arguments = parts[1] if len(parts) > 1 else ""
 
         if name.startswith("{") and name.endswith("}"):
+            body_offset_shift = 0
             if token.content.startswith(":::"):
                 # the content starts with a nested fence block,
                 # but must distinguish between ``:options:``, so we add a new line
@@ -1561,7 +1562,11 @@ class DocutilsRenderer(RendererProtocol):
                 linear_token = token.token.copy()
                 linear_token.content = "\n" + linear_token.content
                 token.token = linear_token
-            return self.render_directive(token, name[1:-1], arguments)
+                # the added line is not in the source, so must not be counted
+                body_offset_shift = -1
+            return self.render_directive(
+                token, name[1:-1], arguments, body_offset_shift=body_offset_shift
+            )
 
         container = nodes.container(is_div=True)
         self.add_line_and_source_path(container, token)
@@ -1693,12 +1698,15 @@ class DocutilsRenderer(RendererProtocol):
         arguments: str,
         *,
         additional_options: dict[str, str] | None = None,
+        body_offset_shift: int = 0,
     ) -> None:
         """Render special fenced code blocks as directives.
 
         :param token: the token to render
         :param name: the name of the directive
         :param arguments: The remaining text on the same line as the directive name.
+        :param body_offset_shift: correction to the line offset of the body,
+            for content lines that are not present in the source
         """
         position = token_line(token)
         nodes_list = self.run_directive(
@@ -1707,6 +1715,7 @@ class DocutilsRenderer(RendererProtocol):
             token.content,
             position,
             additional_options=additional_options,
+            body_offset_shift=body_offset_shift,
         )
         self.current_node += nodes_list
 
@@ -1717,6 +1726,7 @@ class DocutilsRenderer(RendererProtocol):
         content: str,
         position: int,
         additional_options: dict[str, str] | None = None,
+        body_offset_shift: int = 0,
     ) -> list[nodes.Element]:
         """Run a directive and return the generated nodes.
 
@@ -1799,7 +1809,7 @@ class DocutilsRenderer(RendererProtocol):
                 # the absolute line number of the first line of the directive
                 lineno=position,
                 # the line offset of the first line of the content
-                content_offset=parsed.body_offset,
+                content_offset=parsed.body_offset + body_offset_shift,
                 # a string containing the entire directive
                 block_text="\n".join(parsed.body),
                 state=state,
